@@ -221,3 +221,175 @@ def build(run, targets, audit_file, allow=()):
         run.tie_broken("harness build vp-store", blog[-3000:])
         return None
     return os.path.join(bindir, "vp-store")
+
+
+# ====================================================================== C22
+IMPORTS22 = ("From Coq Require Import String List NArith.\nImport ListNotations.\n"
+             "From VP Require Import Base.Render Store.Tenant Store.TenantRun.\nOpen Scope N_scope.\n")
+
+
+def num(sym):
+    """'t3' / 'p2' / 'src1' -> 3 / 2 / 1; anything else is returned unchanged (and will not match the model)"""
+    for pre in ("src", "t", "p"):
+        if isinstance(sym, str) and sym.startswith(pre) and sym[len(pre):].isdigit():
+            return int(sym[len(pre):])
+    return sym
+
+
+def g_op22(o):
+    k = o[0]
+    if k == "create":
+        n = num(o[1])
+        return "OCreate %d %d %d" % (n, n, n)
+    if k == "deltenant":
+        return "ODelTenant %d" % num(o[1])
+    if k == "deploy":
+        return "ODeploy %d %d %d %d" % (num(o[1]), num(o[2]), num(o[2]), o[3])
+    if k == "delpipe":
+        return "ODelPipe %d %d" % (num(o[1]), num(o[2]))
+    if k == "reload":
+        return "OReload %d %d %d" % (num(o[1]), num(o[2]), o[3])
+    if k == "restart":
+        return "ORestart"
+    raise ValueError(k)
+
+
+def g_case22(case):
+    b = "None" if case["crash_after"] is None else "(Some %d%%nat)" % case["crash_after"]
+    return "c22_case [%s] %s" % ("; ".join(g_op22(o) for o in case["ops"]), b)
+
+
+def _status(s):
+    return 0 if str(s).lower() == "running" else "?%s" % s
+
+
+def _r_pipes(pipes):
+    ps = sorted(((num(p[0]), num(p[1]), num(p[2]), _status(p[3])) for p in pipes), key=lambda x: str(x[0]).zfill(9))
+    return ",".join("p%s:%s:s%s:%s" % p for p in ps)
+
+
+def impl_str22(ans):
+    if "panic" in ans:
+        return "PANIC " + ans["panic"]
+    steps = ",".join(("a" if 200 <= s["status"] < 300 else "r") + str(s["writes"]) + ("F" if s["frozen"] else "") for s in ans["steps"])
+    idx = ans["store"]["index"]
+    index = "none" if idx is None else "[" + ",".join("t%s" % num(x) for x in idx) + "]"
+    snaps = []
+    for key_t, id_t, name, key_owner, pipes in sorted(ans["store"]["snapshots"], key=lambda s: str(num(s[1])).zfill(9)):
+        if key_t != id_t:
+            snaps.append("MISFILED(%s under %s)" % (id_t, key_t))
+        snaps.append("t%s(%s,%s,[%s])" % (num(id_t), num(name), num(key_owner), _r_pipes(pipes)))
+    rec = []
+    for id_t, name, key_owner, by_key, pipes in sorted(ans["recovered"], key=lambda s: str(num(s[0])).zfill(9)):
+        rec.append("t%s(%s,%s,[%s])" % (num(id_t), num(name), num(key_owner), _r_pipes(pipes)))
+    return "steps=%s|index=%s|snaps=%s|rec=%s" % (steps, index, ";".join(snaps), ";".join(rec))
+
+
+def abstract_apply(state, o):
+    """the acknowledged effect of an operation on the abstract server state {tenant: {pipeline: source}}"""
+    st = {t: dict(p) for t, p in state.items()}
+    k = o[0]
+    if k == "create":
+        st[o[1]] = {}
+    elif k == "deltenant":
+        st.pop(o[1], None)
+    elif k == "deploy":
+        st[o[1]][o[2]] = o[3]
+    elif k == "delpipe":
+        st[o[1]].pop(o[2], None)
+    elif k == "reload":
+        st[o[1]][o[2]] = o[3]
+    return st
+
+
+def oracle22(case, ans):
+    """Property text only: what a restarted server holds is the acknowledged state, give or take the in-flight operation."""
+    if "panic" in ans:
+        return ["implementation panicked: " + ans["panic"]]
+    state = {}
+    before = {}
+    inflight = False
+    for o, s in zip(case["ops"], ans["steps"]):
+        before = state
+        if 200 <= s["status"] < 300 and o[0] != "restart":
+            try:
+                state = abstract_apply(state, o)
+            except KeyError:
+                return ["operation %s acknowledged (HTTP %s) on a tenant/pipeline that does not exist" % (o, s["status"])]
+        inflight = s["frozen"]
+    allowed = [state, before] if inflight else [state]
+    got = {}
+    fails = []
+    for id_t, name, key_owner, by_key, pipes in ans["recovered"]:
+        if name != id_t:
+            fails.append("tenant %s recovered with name %s" % (id_t, name))
+        if key_owner != id_t:
+            fails.append("tenant %s recovered with the API key of %s" % (id_t, key_owner))
+        if by_key != id_t:
+            fails.append("API key of tenant %s resolves to %s after recovery" % (id_t, by_key))
+        ps = {}
+        for pid, pname, src, status in pipes:
+            if pname != pid:
+                fails.append("pipeline %s of %s recovered with name %s" % (pid, id_t, pname))
+            if str(status).lower() != "running":
+                fails.append("pipeline %s of %s recovered with status %s" % (pid, id_t, status))
+            ps[pid] = num(src)
+        got[id_t] = ps
+    if got not in allowed:
+        fails.append("recovered %s; acknowledged state %s%s" % (json.dumps(got, sort_keys=True), json.dumps(state if not inflight else before, sort_keys=True),
+                                                               (" or, with the in-flight operation, %s" % json.dumps(state, sort_keys=True)) if inflight else ""))
+    if ans.get("recover_result", 0) < 0:
+        fails.append("recover() returned an error")
+    return fails
+
+
+def gen_history22(rng, maxlen=8):
+    ops = []
+    created = []
+    alive = set()
+    pipes = {}          # pname -> tname (alive)
+    next_p = 1
+    n = rng.range(2, maxlen)
+    while len(ops) < n:
+        k = rng.below(100)
+        if (not created or k < 15) and len(created) < 2:
+            t = "t%d" % (len(created) + 1)
+            created.append(t)
+            alive.add(t)
+            ops.append(["create", t])
+        elif k < 45 and next_p <= 3 and created:
+            t = rng.choice(sorted(alive)) if alive and rng.chance(9, 10) else rng.choice(created)
+            p = "p%d" % next_p
+            next_p += 1
+            ops.append(["deploy", t, p, rng.below(3)])
+            if t in alive:
+                pipes[p] = t
+        elif k < 60 and next_p > 1:
+            p = "p%d" % rng.range(1, next_p - 1)
+            t = pipes.get(p) or rng.choice(created)
+            ops.append(["reload", t, p, rng.below(3)])
+        elif k < 72 and next_p > 1:
+            p = "p%d" % rng.range(1, next_p - 1)
+            t = pipes.get(p) or rng.choice(created)
+            ops.append(["delpipe", t, p])
+            pipes.pop(p, None)
+        elif k < 84 and created:
+            t = rng.choice(created)
+            ops.append(["deltenant", t])
+            alive.discard(t)
+            for p in [p for p, tt in pipes.items() if tt == t]:
+                pipes.pop(p)
+        elif k < 92:
+            ops.append(["restart"])
+        elif created:
+            # a request that must be rejected: wrong tenant for the pipeline, or unknown pipeline
+            t = rng.choice(created)
+            ops.append(rng.choice([["reload", t, "p9", 0], ["delpipe", t, "p9"], ["deploy", "t9", "p%d" % min(next_p, 3), 0]]))
+    return ops
+
+
+CORPUS22 = [
+    [["create", "t1"], ["deploy", "t1", "p1", 0], ["create", "t2"], ["reload", "t1", "p1", 1], ["deploy", "t2", "p2", 2], ["delpipe", "t1", "p1"], ["deltenant", "t2"], ["restart"]],
+    [["create", "t1"], ["deltenant", "t1"], ["restart"], ["create", "t2"], ["deploy", "t2", "p1", 1], ["deploy", "t1", "p2", 0]],
+    [["create", "t1"], ["create", "t2"], ["deploy", "t1", "p1", 0], ["deploy", "t1", "p2", 1], ["deploy", "t2", "p3", 2], ["delpipe", "t1", "p1"], ["reload", "t2", "p3", 0], ["deltenant", "t1"]],
+]
